@@ -11,6 +11,9 @@ import Sqfs.Proofs.TarPaxRT
 import Sqfs.Proofs.TarSparse
 import Sqfs.Proofs.TarSparseChunk
 import Sqfs.Proofs.TarConv
+import Sqfs.Proofs.TarHeaderFull
+import Sqfs.Proofs.TarFixIter
+import Sqfs.Proofs.TarFixConv
 namespace Sqfs.C04
 open Sqfs.Tar
 
@@ -62,39 +65,8 @@ byte shares its top bit with the marker and `0xFF` means "negative").
 -/
 theorem number_roundtrip (v w : Nat) (hw : 2 ≤ w ∧ w ≤ 21) (hv : v < U64)
     (hfit : v < 8 ^ w ∨ 9 ≤ w ∨ (w = 8 ∧ v < 127 * 2 ^ 56)) :
-    readNumber (writeNumber v w) = some v := by
-  obtain ⟨n, rfl⟩ : ∃ n, w = n + 2 := ⟨w - 2, by omega⟩
-  unfold writeNumber
-  have hpos1 : 1 ≤ 8 ^ (n + 1) := Nat.one_le_pow _ _ (by omega)
-  have hpos2 : 1 ≤ 8 ^ (n + 2) := Nat.one_le_pow _ _ (by omega)
-  simp only [show n + 2 - 1 = n + 1 by omega]
-  by_cases h1 : v ≤ 8 ^ (n + 1) - 1
-  · rw [if_pos h1]
-    exact readNumber_octDigits n v [32] (Or.inr ⟨32, [], rfl, by decide⟩) (by omega) hv
-  · rw [if_neg h1]
-    by_cases h2 : v ≤ 8 ^ (n + 2) - 1
-    · rw [if_pos h2]
-      have := readNumber_octDigits (n + 1) v [] (Or.inl rfl) (by show v < 8 ^ (n + 2); omega) hv
-      simpa using this
-    · rw [if_neg h2]
-      have hbig : ¬ v < 8 ^ (n + 2) := by omega
-      simp only [U64] at hv
-      rcases hfit with h | h | ⟨h, h56⟩
-      · exact absurd h hbig
-      · have hp : 256 ^ 8 ≤ 256 ^ (n + 1) := Nat.pow_le_pow_right (by omega) (by omega)
-        have hp' : 256 ^ (n + 1) ≤ 256 ^ (n + 2) := Nat.pow_le_pow_right (by omega) (by omega)
-        norm_num at hp
-        have hlt : v < 256 ^ (n + 1) := by omega
-        apply readNumber_writeBinary (n + 1) v
-        · rw [Nat.div_eq_of_lt hlt]; omega
-        · omega
-        · simp only [U64]; omega
-      · have hn : n = 6 := by omega
-        subst hn
-        apply readNumber_writeBinary 7 v
-        · norm_num at h56 ⊢; omega
-        · norm_num; omega
-        · simp only [U64]; omega
+    readNumber (writeNumber v w) = some v :=
+  readNumber_writeNumber v w hw hv hfit
 
 /--
 **Signed round trip** (the mtime field: `write_number_signed`, then `read_number` and `decode_header`'s
@@ -102,25 +74,8 @@ conversion): every `sqfs_s64` value, negative ones included, in every field of a
 -/
 theorem number_roundtrip_signed (m : Int) (w : Nat) (hw : 9 ≤ w ∧ w ≤ 21)
     (hm : -9223372036854775808 ≤ m ∧ m < 9223372036854775808) :
-    (readNumber (writeNumberSigned m w)).map toSigned = some m := by
-  unfold writeNumberSigned
-  by_cases hneg : m < 0
-  · rw [if_pos hneg]
-    obtain ⟨n, rfl⟩ : ∃ n, w = n + 1 := ⟨w - 1, by omega⟩
-    have hv : (m + (U64 : Int)).toNat % U64 = (m + (U64 : Int)).toNat := by
-      apply Nat.mod_eq_of_lt; simp only [U64]; omega
-    rw [hv]
-    have hp : 256 ^ 8 ≤ 256 ^ n := Nat.pow_le_pow_right (by omega) (by omega)
-    have hp' : 256 ^ n ≤ 256 ^ (n + 1) := Nat.pow_le_pow_right (by omega) (by omega)
-    norm_num at hp
-    have hlt : (m + (U64 : Int)).toNat < 256 ^ n := by simp only [U64]; omega
-    rw [readNumber_writeBinary n _ (by rw [Nat.div_eq_of_lt hlt]; omega) (by omega) (by simp only [U64]; omega)]
-    simp only [Option.map_some, toSigned, U64, Option.some.injEq]
-    split <;> omega
-  · rw [if_neg hneg]
-    rw [number_roundtrip m.toNat w (by omega) (by simp only [U64]; omega) (Or.inr (Or.inl hw.1))]
-    simp only [Option.map_some, toSigned, Option.some.injEq]
-    split <;> omega
+    (readNumber (writeNumberSigned m w)).map toSigned = some m :=
+  readNumber_writeNumberSigned m w hw hm
 
 /-! ## checksum (`checksum.c`, `update_checksum`, `is_checksum_valid`) -/
 
@@ -169,34 +124,44 @@ theorem prefix_digit_len_correct (len : Nat) : numDigits (len + prefixDigitLen l
   prefixDigitLen_fix len
 
 /-- hence the length field of every emitted `SCHILY.xattr` record equals the record's actual length,
-    for all keys and all (binary) values -/
+    for all keys and all (binary) values (`k` = the key as emitted, '%' and '=' escaped) -/
 theorem schily_record_length (key value : Bytes) :
-    let len := 13 + key.length + value.length + 3
-    schilyRecord key value = decStr (len + prefixDigitLen len) ++ ([32] ++ schilyPrefix ++ key ++ [61] ++ value ++ [10]) ∧
+    let k := xattrEncodeKey key
+    let len := 13 + k.length + value.length + 3
+    schilyRecord key value = decStr (len + prefixDigitLen len) ++ ([32] ++ schilyPrefix ++ k ++ [61] ++ value ++ [10]) ∧
     (schilyRecord key value).length = len + prefixDigitLen len := by
   have hp : schilyPrefix.length = 13 := by decide
   refine ⟨?_, ?_⟩
-  · unfold schilyRecord
+  · unfold schilyRecord schilyRecordRaw
     simp only [hp, List.append_assoc]
-  · unfold schilyRecord
+  · unfold schilyRecord schilyRecordRaw
     simp only [hp, List.length_append, decStr_length, prefix_digit_len_correct, List.length_cons, List.length_nil]
     omega
 
 /--
-**PAX record round trip.**  For every key without NUL and '=' and every value (arbitrary bytes: NUL, '=', newline
-included), the record parser of `read_pax_header` applied to the record `write_schily_xattr` emits — followed by
+**xattr key escaping** (`xattr_encode_keyword` / `xattr_decode_keyword` of GNU tar, adopted by the repair
+`fixes/C04-xattr-key-escape.patch`): decoding inverts encoding for every key, and an encoded key never contains the
+PAX keyword terminator '=' (nor a NUL when the key has none).
+-/
+theorem xattr_key_escape (key : Bytes) :
+    xattrDecodeKey (xattrEncodeKey key) = key ∧ ((∀ x ∈ key, x ≠ 0) → ∀ x ∈ xattrEncodeKey key, x ≠ 0 ∧ x ≠ 61) :=
+  ⟨xattrDecode_encode key, xattrEncode_clean key⟩
+
+/--
+**PAX record round trip.**  For every NUL-free key ('=' and '%' included) and every value (arbitrary bytes: NUL, '=',
+newline included), the record parser of `read_pax_header` applied to the record `write_schily_xattr` emits — followed by
 anything — consumes exactly the record and delivers exactly that key/value pair (prepended to the list, as the C code does).
 -/
-theorem pax_record_roundtrip (st : PaxState) (key value rest : Bytes) (hk : ∀ x ∈ key, x ≠ 0 ∧ x ≠ 61) :
-    paxLine false st (schilyRecord key value ++ rest) =
+theorem pax_record_roundtrip (st : PaxState) (key value rest : Bytes) (hk : ∀ x ∈ key, x ≠ 0) :
+    paxLine {} st (schilyRecord key value ++ rest) =
       some ({ st with out := { st.out with xattr := (key, value) :: st.out.xattr } }, (schilyRecord key value).length) :=
   paxLine_schily st key value rest hk
 
 /-- … and the whole payload of a `pax/xattrN` member, any number of xattrs, is read back completely: the header gets
     exactly the written pairs (in reverse order — the reader prepends), `set_by_pax` stays untouched. -/
 theorem pax_payload_roundtrip (xs : List (Bytes × Bytes)) (out : Decoded) (mask : Nat)
-    (hk : ∀ kv ∈ xs, ∀ x ∈ kv.1, x ≠ 0 ∧ x ≠ 61) :
-    readPaxHeader false ((xs.map fun kv => schilyRecord kv.1 kv.2).flatten) out mask =
+    (hk : ∀ kv ∈ xs, ∀ x ∈ kv.1, x ≠ 0) :
+    readPaxHeader {} ((xs.map fun kv => schilyRecord kv.1 kv.2).flatten) out mask =
       some ({ out with xattr := xs.reverse ++ out.xattr }, mask) := by
   unfold readPaxHeader
   rw [paxLoop_schily xs _ _ hk]
@@ -216,54 +181,181 @@ theorem pax_payload_roundtrip (xs : List (Bytes × Bytes)) (out : Decoded) (mask
 
 /-! ## header round trip -/
 
-/-
-Full statement (NOT proved; evaluated on the real code on every run instead — `enc` → `dec` in tools/checks/c04.py):
+/--
+**Header round trip** (full strength).  For *every* entry `write_tar_header` accepts — every entry kind (regular file,
+directory, symbolic link, character / block device, FIFO, hard link), names and link targets of any length (below 100 bytes
+in the header field, from 100 bytes on through GNU 'L' / 'K' records), every numeric encoding (octal, unterminated octal,
+base-256, negative mtime), any number of extended attributes with arbitrary binary values and arbitrary keys ('=' and '%'
+included) through the `SCHILY.xattr` PAX record — and whatever follows in the stream, `read_header` consumes exactly the
+bytes the writer emitted and returns exactly the entry (`decodedOf`, `Sqfs/Spec/TarHeader.lean`: name, link target, ids,
+signed time stamp, size, device number, hard-link flag byte for byte; xattrs in reverse order since the reader prepends;
+symbolic links always with mode 0777).
 
-  header_roundtrip : ∀ e tgt xs n rest, supported e → NUL-free names/targets/keys, ids < 0x7F·2^56 →
-      readHeader ((writeTarHeader e tgt xs n).get ++ rest) =
-        .ok { name := e.name, link := tgt, mode := modeOf e, uid := e.uid, gid := e.gid, mtime := e.mtime,
-              recordSize := sizeOf e, actualSize := sizeOf e, devMajor/devMinor, hardLink := e.hardLink,
-              xattr := xs.reverse } rest
-      (for every entry kind, name/link lengths on both sides of 100 — GNU 'L'/'K' records —, every numeric encoding,
-       xattrs through the SCHILY.xattr PAX record)
-
-What is missing: slicing the 17 fields back out of the 512-byte record (`slice (updateChecksum (rawHeader …)) off n`),
-and the loop of `read_header` over up to three extension records.  What is proved (this theorem and the ones above):
-the record has the right size and a checksum the reader accepts, and every *field codec* the decoder applies inverts
-the corresponding field writer: string fields, the three number encodings at both field widths, signed mtime, and the
-self-referential PAX length.
+`Encodable` holds the calling convention (NUL-terminated strings, `ent->size` = length of the link target, integer types)
+and the documented limits (ids below `0x7F·2^56` in an 8-byte base-256 field, device numbers below 2^31, GNU/PAX records
+of at most 65536 bytes, beyond which `read_header` refuses); it excludes no entry kind, length class or encoding.
+The writer's dialect is "ustar " + " \0" (pre-POSIX/GNU): the ustar `prefix` field is never used (`header_prefix_unused`).
 -/
-theorem header_roundtrip_partial (e : WEntry) (name : Bytes) (slink : Option Bytes) (tf : UInt8) :
-    (writeHeaderRec e name slink tf).length = 512 ∧ isChecksumValid (writeHeaderRec e name slink tf) = true ∧
-    (∀ n : Bytes, n.length ≤ 99 → (∀ x ∈ n, x ≠ 0) → strn (field 100 (n.take 99)) = n) ∧           -- name
-    (∀ t : Bytes, t.length ≤ 99 → (∀ x ∈ t, x ≠ 0) → strn (field 100 (t.take t.length)) = t) ∧     -- link target (`ent->size` bytes)
-    (∀ v, v < 127 * 2 ^ 56 → readNumber (writeNumber v 8) = some v) ∧                               -- mode, uid, gid, devmajor, devminor
-    (∀ v, v < U64 → readNumber (writeNumber v 12) = some v) ∧                                       -- size
-    (∀ m : Int, -9223372036854775808 ≤ m → m < 9223372036854775808 →
-        (readNumber (writeNumberSigned m 12)).map toSigned = some m) := by                         -- mtime
-  have hlen : ∀ l : Bytes, l.length = 100 →
-      (rawHeader (field 100 (name.take 99)) (perm e.mode) e.uid e.gid (if fmt e.mode = S_IFREG then e.size else 0) e.mtime tf l
-        (if fmt e.mode = S_IFCHR ∨ fmt e.mode = S_IFBLK then
-            (if e.devMajor ≥ 2147483648 then e.devMajor % 4294967296 + (U64 - 4294967296) else e.devMajor) else 0)
-        (if fmt e.mode = S_IFCHR ∨ fmt e.mode = S_IFBLK then
-            (if e.devMinor ≥ 2147483648 then e.devMinor % 4294967296 + (U64 - 4294967296) else e.devMinor) else 0)).length = 512 :=
-    fun l hl => rawHeader_length _ _ _ _ _ _ _ _ _ _ (field_length _ _) hl
-  have hl : (match slink with | some t => field 100 (t.take e.size) | none => zeros 100).length = 100 := by
-    cases slink <;> simp [field_length, zeros_length]
-  obtain ⟨c1, _, _, _, c5⟩ := checksum_roundtrip _ (hlen _ hl)
-  refine ⟨c5, c1, ?_, ?_, ?_, ?_, ?_⟩
-  · intro n hn hnul
-    rw [List.take_of_length_le (by omega)]
-    exact strn_field 100 n (by omega) hnul
-  · intro t ht hnul
-    rw [List.take_of_length_le (Nat.le_refl _)]
-    exact strn_field 100 t (by omega) hnul
-  · intro v hv
-    exact number_roundtrip v 8 (by omega) (by simp only [U64]; omega) (Or.inr (Or.inr ⟨rfl, hv⟩))
-  · intro v hv
-    exact number_roundtrip v 12 (by omega) hv (Or.inr (Or.inl (by omega)))
-  · intro m h1 h2
-    exact number_roundtrip_signed m 12 (by omega) ⟨h1, h2⟩
+theorem header_roundtrip (e : WEntry) (tgt : Option Bytes) (xs : List (Bytes × Bytes)) (n : Nat) (rest w : Bytes)
+    (hE : Encodable e tgt xs) (hw : writeTarHeader e tgt xs n = some w) :
+    readHeader (w ++ rest) = .ok (decodedOf e tgt xs.reverse) rest := by
+  cases hh : e.hardLink with
+  | true => exact readHeader_written_hard e tgt xs n rest hE hh w hw
+  | false =>
+    cases ht : entryType e.mode with
+    | none =>
+      unfold writeTarHeader writeTarHeaderK at hw
+      simp [hh, ht] at hw
+    | some t => exact readHeader_written e tgt xs n rest t hE hh ht w hw
+
+/--
+**What the writer refuses** (and only that): an entry that is not a hard link and whose type is none of the six that tar
+can express — sockets in particular.  The refusal happens before anything is appended to the stream (repaired order, D27),
+so the archive stays well-formed; `sqfs2tar` skips the entry with a warning.
+-/
+theorem header_refusal (e : WEntry) (tgt : Option Bytes) (xs : List (Bytes × Bytes)) (n : Nat) :
+    (writeTarHeader e tgt xs n = none ↔
+      e.hardLink = false ∧ fmt e.mode ≠ S_IFREG ∧ fmt e.mode ≠ S_IFDIR ∧ fmt e.mode ≠ S_IFLNK ∧ fmt e.mode ≠ S_IFCHR ∧
+        fmt e.mode ≠ S_IFBLK ∧ fmt e.mode ≠ S_IFIFO) ∧
+    (e.hardLink = false → fmt e.mode = S_IFSOCK → writeTarHeader e tgt xs n = none) := by
+  have key : writeTarHeader e tgt xs n = none ↔ e.hardLink = false ∧ entryType e.mode = none := by
+    unfold writeTarHeader writeTarHeaderK
+    cases hh : e.hardLink with
+    | true => simp
+    | false =>
+      cases ht : entryType e.mode with
+      | none => simp
+      | some t => simp
+  have hty : entryType e.mode = none ↔ fmt e.mode ≠ S_IFREG ∧ fmt e.mode ≠ S_IFDIR ∧ fmt e.mode ≠ S_IFLNK ∧
+      fmt e.mode ≠ S_IFCHR ∧ fmt e.mode ≠ S_IFBLK ∧ fmt e.mode ≠ S_IFIFO := by
+    unfold entryType
+    constructor
+    · intro h
+      split_ifs at h with h1 h2 h3 h4 h5 h6
+      exact ⟨h4, h5, h3, h1, h2, h6⟩
+    · rintro ⟨h4, h5, h3, h1, h2, h6⟩
+      simp only [h1, h2, h3, h4, h5, h6, if_false]
+  refine ⟨by rw [key, hty], ?_⟩
+  intro hh hs
+  rw [key, hty, hs]
+  exact ⟨hh, by decide, by decide, by decide, by decide, by decide, by decide⟩
+
+/-- the writer never uses the ustar `prefix` field: it stays zero in every header block, and the block is recognised as
+    pre-POSIX ("ustar " + " \0"), for which `decode_header` does not look at the prefix at all -/
+theorem header_prefix_unused (name : Bytes) (mode uid gid size : Nat) (mtime : Int) (tf : UInt8) (linkname : Bytes) (maj min : Nat)
+    (hn : name.length = 100) (hl : linkname.length = 100) :
+    slice (hdrBlock name mode uid gid size mtime tf linkname maj min) 345 155 = zeros 155 ∧
+    checkVersion (hdrBlock name mode uid gid size mtime tf linkname maj min) = some .prePosix := by
+  refine ⟨?_, hdrBlock_version name mode uid gid size mtime tf linkname maj min hn hl⟩
+  unfold hdrBlock
+  rw [slice_updateChecksum_hi _ _ _ (rawHeader_length name mode uid gid size mtime tf linkname maj min hn hl) (by decide)]
+  exact raw_prefix name mode uid gid size mtime tf linkname maj min hn hl
+
+/-! ## foreign dialects: what `read_header` makes of headers it did not write -/
+
+/--
+**`decode_header`, field by field, every dialect.**  For every 512-byte block (v7, pre-POSIX/GNU, POSIX ustar — with or
+without a ustar `prefix`), whatever `set_by_pax` mask and partial header the extension records before it left behind,
+`decode_header` delivers exactly the specification `specDecode` (`Sqfs/Spec/TarHeader.lean`): every numeric field is the exact
+value its bytes encode (octal digit run or base-256 two's complement, `readNumber_exact_or_error`) or the header is refused;
+values supplied by PAX records win; the name is `prefix/name` exactly for a POSIX block with a non-empty prefix; the type flag
+selects the file type; unknown type flags are marked for skipping.
+-/
+theorem decode_header_spec (h : Bytes) (mask : Nat) (out : Decoded) (v : Version) :
+    decodeHeader h mask out v = specDecode h mask out v :=
+  decodeHeader_eq_spec h mask out v
+
+/--
+**A plain member header of any dialect through `read_header`.**  A block with one of the three recognised magic/version pairs,
+a valid checksum and a type flag other than the extension records ('K', 'L', 'g', 'x') and the old GNU sparse header ('S'),
+standing first in the stream: `read_header` consumes exactly the block and returns `specDecode` of it (`actual_size =
+record_size`), or fails when a numeric field does not hold a number.  (`read_header_after_records` is the same statement with
+the state that GNU 'L'/'K' and PAX records leave behind.)
+-/
+theorem read_header_plain_block (h rest : Bytes) (v : Version)
+    (hl : h.length = 512) (hnz : isZeroBlock h = false) (hv : checkVersion h = some v) (hck : isChecksumValid h = true)
+    (htf : (slice h 156 1).headD 0 ≠ 75 ∧ (slice h 156 1).headD 0 ≠ 76 ∧ (slice h 156 1).headD 0 ≠ 103 ∧
+           (slice h 156 1).headD 0 ≠ 120 ∧ (slice h 156 1).headD 0 ≠ 83) :
+    readHeader (h ++ rest) =
+      match specDecode h 0 {} v with
+      | none => .err
+      | some d => .ok { d with actualSize := d.recordSize } rest := by
+  unfold readHeader readHeaderWith
+  exact loop_plain {} _ h rest false v 0 {} hl hnz hv hck htf rfl (by decide)
+
+theorem read_header_after_records (cfg : ReadCfg) (f : Nat) (h rest : Bytes) (pz : Bool) (v : Version) (mask : Nat) (out : Decoded)
+    (hl : h.length = 512) (hnz : isZeroBlock h = false) (hv : checkVersion h = some v) (hck : isChecksumValid h = true)
+    (htf : (slice h 156 1).headD 0 ≠ 75 ∧ (slice h 156 1).headD 0 ≠ 76 ∧ (slice h 156 1).headD 0 ≠ 103 ∧
+           (slice h 156 1).headD 0 ≠ 120 ∧ (slice h 156 1).headD 0 ≠ 83)
+    (hsp : out.sparse = []) (hgnu : hasFlag mask PAX_SPARSE_GNU_1_X = false) :
+    readHeaderLoop cfg (f + 1) (h ++ rest) out mask pz =
+      match specDecode h mask out v with
+      | none => .err
+      | some d => .ok { d with actualSize := d.recordSize } rest :=
+  loop_plain cfg f h rest pz v mask out hl hnz hv hck htf hsp hgnu
+
+/--
+**GNU long name / long link records and the PAX extended header, from any writer.**  A record whose header block the reader
+recognises (any dialect, valid checksum) with type flag 'L' / 'K' / 'x' and a size field between 1 and 65536, followed by that
+many payload bytes and the padding to the next 512-byte boundary: the loop of `read_header` takes the payload's C string as the
+member's name resp. link target and sets `PAX_NAME` / `PAX_SLINK_TARGET` so that the following header's own fields lose; for
+'x' it restarts from an empty header with what `read_pax_header` makes of the payload.
+-/
+theorem gnu_long_records (cfg : ReadCfg) (f : Nat) (H p rest : Bytes) (out : Decoded) (mask : Nat) (pz : Bool)
+    (h1 : 1 ≤ p.length) (h2 : p.length ≤ 65536) :
+    (IsHdr H 76 p.length →
+      readHeaderLoop cfg (f + 1) (H ++ (p ++ (zeros (padding p.length) ++ rest))) out mask pz =
+        readHeaderLoop cfg f rest { out with name := some (cstr p) } (setFlag mask PAX_NAME) false) ∧
+    (IsHdr H 75 p.length →
+      readHeaderLoop cfg (f + 1) (H ++ (p ++ (zeros (padding p.length) ++ rest))) out mask pz =
+        readHeaderLoop cfg f rest { out with link := some (cstr p) } (setFlag mask PAX_SLINK_TARGET) false) ∧
+    (IsHdr H 120 p.length → ∀ out' mask',
+      readPaxHeader ⟨cfg.xattrKeepOrder, cfg.schilyKeyDecode⟩ p {} 0 = some (out', mask') →
+      readHeaderLoop cfg (f + 1) (H ++ (p ++ (zeros (padding p.length) ++ rest))) out mask pz =
+        readHeaderLoop cfg f rest out' mask' false) :=
+  ⟨fun h => loop_L cfg f H p rest out mask pz h h1 h2, fun h => loop_K cfg f H p rest out mask pz h h1 h2,
+   fun h out' mask' hp => loop_x cfg f H p rest out mask pz h h1 h2 out' mask' hp⟩
+
+/-- … for instance a GNU long-name member from a foreign writer (any dialect for either block): the name is the record's
+    payload, everything else is the following block's own fields -/
+theorem gnu_long_name_member (HL p h rest : Bytes) (v : Version)
+    (hL : IsHdr HL 76 p.length) (h1 : 1 ≤ p.length) (h2 : p.length ≤ 65536)
+    (hl : h.length = 512) (hnz : isZeroBlock h = false) (hv : checkVersion h = some v) (hck : isChecksumValid h = true)
+    (htf : (slice h 156 1).headD 0 ≠ 75 ∧ (slice h 156 1).headD 0 ≠ 76 ∧ (slice h 156 1).headD 0 ≠ 103 ∧
+           (slice h 156 1).headD 0 ≠ 120 ∧ (slice h 156 1).headD 0 ≠ 83) :
+    readHeader (HL ++ (p ++ (zeros (padding p.length) ++ (h ++ rest)))) =
+      match specDecode h PAX_NAME { name := some (cstr p) } v with
+      | none => .err
+      | some d => .ok { d with actualSize := d.recordSize } rest := by
+  unfold readHeader readHeaderWith
+  have hlen : (HL ++ (p ++ (zeros (padding p.length) ++ (h ++ rest)))).length / 512 + 2 =
+      ((HL ++ (p ++ (zeros (padding p.length) ++ (h ++ rest)))).length / 512) + 1 + 1 := rfl
+  rw [hlen, loop_L {} _ HL p (h ++ rest) {} 0 false hL h1 h2]
+  have hm : setFlag 0 PAX_NAME = PAX_NAME := by decide
+  rw [hm]
+  exact loop_plain {} _ h rest false v PAX_NAME { name := some (cstr p) } hl hnz hv hck htf rfl (by decide)
+
+/--
+**The PAX record parser, any keyword.**  On a well-formed record `"%d %s=%s\n"` (keyword without NUL/'=' and not starting with
+white space, arbitrary value bytes, the decimal length in front counting itself) the parser of `read_pax_header` — `strtol`, the
+in-place NUL edits, the blank skip, the key scan — hands exactly the keyword and the value to the handler table (`paxApply`:
+`find_handler`/`apply_handler` and the GNU.sparse.offset/numbytes pair) and consumes exactly the record.
+In particular `path` / `linkpath` records set the member's name / link target to the value's C string and mark it as set by PAX.
+-/
+theorem pax_record_spec (pc : PaxCfg) (st : PaxState) (kw value rest : Bytes) (hne : kw ≠ [])
+    (hk : ∀ x ∈ kw, x ≠ 0 ∧ x ≠ 61) (hsp : isSpace (kw.headD 0) = false) :
+    paxLine pc st (paxRecord kw value ++ rest) = paxApply pc st kw value (paxRecord kw value).length ∧
+    paxApply pc st (ascii "path") value (paxRecord (ascii "path") value).length =
+      some ({ st with out := { st.out with name := some (cstr value) }, mask := setFlag st.mask PAX_NAME },
+            (paxRecord (ascii "path") value).length) ∧
+    paxApply pc st (ascii "linkpath") value (paxRecord (ascii "linkpath") value).length =
+      some ({ st with out := { st.out with link := some (cstr value) }, mask := setFlag st.mask PAX_SLINK_TARGET },
+            (paxRecord (ascii "linkpath") value).length) := by
+  refine ⟨paxLine_record pc st kw value rest hne hk hsp, ?_, ?_⟩
+  · have : findHandler (ascii "path") = some .path := by decide
+    simp only [paxApply, this, applyHandler, kindFlag]
+  · have : findHandler (ascii "linkpath") = some .linkpath := by decide
+    simp only [paxApply, this, applyHandler, kindFlag]
 
 /-! ## sparse files (`iterator.c`) -/
 
@@ -465,26 +557,105 @@ theorem implicit_parents (o : ConvOpts) (t t' : List TNode) (e : CEntry) (h : ad
               subst h
               exact ⟨n, List.mem_append_left _ hn, hnp, hnd⟩
 
+/-- **`--root-becomes` link retarget** (repaired rule): a link target is either left exactly as it is, or — when its
+    canonical form lies below the new root `r` — replaced by the part after `r` (which starts with '/') -/
+theorem retarget_spec (r l : Bytes) :
+    retarget r l = l ∨ ∃ rest, Sqfs.Path.canonicalize l = some (r ++ Sqfs.Path.SL :: rest) ∧ retarget r l = Sqfs.Path.SL :: rest := by
+  unfold retarget
+  cases hc : Sqfs.Path.canonicalize l with
+  | none => exact Or.inl rfl
+  | some c =>
+    simp only
+    by_cases h : c.take r.length = r ∧ (c.drop r.length).head? = some Sqfs.Path.SL
+    · rw [if_pos h]
+      right
+      cases hd : c.drop r.length with
+      | nil => rw [hd] at h; simp at h
+      | cons x rest =>
+        rw [hd] at h
+        simp only [List.head?_cons, Option.some.injEq] at h
+        obtain ⟨h1, rfl⟩ := h
+        refine ⟨rest, ?_, rfl⟩
+        have := take_eq_split c r h1
+        rw [hd] at this
+        rw [this]
+    · rw [if_neg h]; exact Or.inl rfl
+
 /-! ## fix-point -/
 
-/-
-Full statement (NOT proved in Lean; decided by execution on every run — `c04_tools` sub-check C):
+/--
+**Fix-point, entry level** (full strength).  Let `t` be the flat tree of an image (`FromImage`, `Sqfs/Spec/TarFix.lean`:
+clean distinct paths, parents before children, 32-bit ids and times, links with targets, no sockets) and `t[i]` any of its
+nodes.  Then
 
-  fixpoint : ∀ img opts, let img2 := tar2sqfs opts (sqfs2tar opts img); let img3 := tar2sqfs opts (sqfs2tar opts img2);
-      img3 = img2 (byte for byte) ∧ tree img2 = tree img (minus sockets)
-
-It needs the image serializer and reader (C01), the determinism of packing (C02) and hard-link resolution (C07) composed
-with the models of this file; that composition is not done.  Proved here is the tree-level core: an entry that comes
-back out of an image (time stamp inside the 32-bit range, non-empty canonical name) passes through `process_tarball`
-unchanged, so the second conversion builds its tree from exactly the entries of the first; and the clamp is idempotent.
+1. sqfs2tar writes a member for it (`write_tar_header` accepts the entry; for a regular file the data and padding follow);
+2. wherever that member stands in an archive, tar2sqfs's iterator (`read_header`, `canonicalize_name`, the file stream read to
+   its end) reports exactly the node: canonical name, mode, ids, time stamp, link target, the complete file content, the
+   xattrs in stored order — and stands in front of whatever follows the member;
+3. `process_tarball` (clamp, root handling, `fstree_add_generic`) applied to that report on the tree built from the nodes
+   before it appends exactly `t[i]`: no implicit parent is created, nothing is overwritten, no attribute changes.
 -/
-theorem fixpoint_entry_level_partial (o : ConvOpts) (e : CEntry) (h : o.rootBecomes = none) (hk : o.keepTime = true)
-    (hm : 0 ≤ e.mtime ∧ e.mtime ≤ 4294967295) (hn : e.name ≠ []) :
-    processEntry o e = .node e ∧ clampMtime (clampMtime e.mtime) = clampMtime e.mtime := by
-  have hc : clampMtime e.mtime = e.mtime := (mtime_clamp e.mtime).2.2.1 hm.1 hm.2
-  refine ⟨?_, by rw [hc, hc]⟩
-  unfold processEntry processEntryWith
-  simp only [h, hn, hk, hc, if_false, if_true]
+theorem fixpoint_entry_level (img : ImgData) (t : List TNode) (h : FromImage img t) (i : Nat) (hi : i < t.length)
+    (counter : Nat) (rest : Bytes) (devs : List (List Bytes × Nat × Nat)) :
+    ∃ b, entryBytes img t[i] counter = some b ∧
+      (∃ x s1 k1, IterEntry.view x = viewOf img t[i] ∧ s1.drop k1 = rest ∧
+        ∀ f s0 k acc, s0.drop k = b ++ rest →
+          iterLoop {} 512 (f + 1) s0 k acc = iterLoop {} 512 f s1 k1 (acc ++ [x])) ∧
+      (∀ x, IterEntry.view x = viewOf img t[i] →
+        convStep processEntry {} (some (t.take i, devs)) x =
+          some (t.take (i + 1), devs ++ [(t[i].path, (viewOf img t[i]).devMajor, (viewOf img t[i]).devMinor)])) := by
+  have hn := h.nodes t[i] (List.getElem_mem hi)
+  obtain ⟨hd, _, _, hb⟩ := entryBytes_some img t[i] counter hn
+  refine ⟨_, hb, iterLoop_node img t[i] counter 512 (by omega) hn _ rest hb, ?_⟩
+  intro x hx
+  rw [List.take_succ_eq_append_getElem hi]
+  apply convStep_node img t[i] (t.take i) devs x hx hn
+  · intro m hm
+    obtain ⟨j, hj, hji, rfl⟩ := (mem_take_iff t i m).1 hm
+    intro heq
+    have := h.distinct j i hj hi heq
+    omega
+  · intro k h0 hk
+    obtain ⟨j, hj, hji, hp, hd⟩ := h.parents i hi k h0 hk
+    refine ⟨t[j], ?_, hd⟩
+    rw [← hp]
+    apply lookup_of_unique
+    · exact (mem_take_iff t i _).2 ⟨j, hj, hji, rfl⟩
+    · intro a ha hpa
+      obtain ⟨j', hj', _, rfl⟩ := (mem_take_iff t i a).1 ha
+      have := h.distinct j' j hj' hj hpa
+      subst this; rfl
+
+/--
+**Fix-point, tree level**: `tar2sqfs ∘ sqfs2tar` is the identity on the trees of images.  For every `FromImage` tree the
+archive sqfs2tar writes (all members, then `terminate_archive`) is read by tar2sqfs's iterator as exactly the image's nodes
+with their contents and xattrs, then end of archive; and converting it rebuilds exactly the tree (same nodes, same order, same
+device numbers).  Hence converting once more changes nothing (`fixpoint_idempotent`).
+
+Byte-exactness of the *image* (`sha256(img2) = sha256(img3)`) additionally needs that the serializer is a function of this
+tree and of the file contents (C01 `serialize`, C02 determinism of the block processor) and the hard-link resolution (C07);
+those are separate properties and are not composed here — the byte-level statement stays decided by execution
+(`c04_tools` sub-check C).
+-/
+theorem fixpoint_tree_level (img : ImgData) (t : List TNode) (h : FromImage img t) :
+    tar2sqfsTree {} (sqfs2tar img t) = some (t, devsOf img t) ∧
+    ∃ es, iterate (sqfs2tar img t) = (es, .eof) ∧ es.map IterEntry.view = t.map (viewOf img) := by
+  obtain ⟨es, hit, hv⟩ := iterate_sqfs2tar img t h.nodes
+  refine ⟨?_, es, hit, hv⟩
+  unfold tar2sqfsTree
+  rw [hit]
+  simp only [ne_eq, not_true_eq_false, if_false]
+  exact convert_fromImage img t h es hv
+
+/-- … and therefore the conversion is idempotent on trees: whatever tree the first round produced, a second round
+    (`img → tar → img2 → tar → img3`) reproduces it -/
+theorem fixpoint_idempotent (img : ImgData) (t t2 : List TNode) (d2 : List (List Bytes × Nat × Nat)) (h : FromImage img t)
+    (h2 : tar2sqfsTree {} (sqfs2tar img t) = some (t2, d2)) :
+    t2 = t ∧ tar2sqfsTree {} (sqfs2tar img t2) = some (t2, d2) := by
+  have h1 := (fixpoint_tree_level img t h).1
+  rw [h1] at h2
+  obtain ⟨rfl, rfl⟩ := Prod.mk.inj (Option.some.inj h2)
+  exact ⟨rfl, h1⟩
 
 /-! ### layout facts the models rely on, re-checked against `include/tar/format.h` on every run
 (`Sqfs/Generated/Consts.lean` is regenerated from the working tree; a changed offset or width breaks this build) -/
@@ -521,5 +692,104 @@ example : writeNumberSigned (-1) 12 = [128, 0, 0, 0, 255, 255, 255, 255, 255, 25
 example : (readNumber (List.replicate 12 255)).map toSigned = some (-1) := by decide
 /-- the width-8 restriction of `number_roundtrip` is sharp: `0x7F·2^56` does not survive an 8-byte field -/
 example : readNumber (writeNumber (127 * 2 ^ 56) 8) = some (255 * 2 ^ 56) := by decide
+
+/-! #### header round trip: the hypotheses are satisfiable, and the statement evaluated on a concrete entry
+(name of exactly 100 bytes → GNU 'L' record; uid needing base-256, gid needing 8 unterminated octal digits, negative mtime;
+two xattrs, one with '=' and '%' in the key and NUL, '=', newline, 0xFF in the value) -/
+
+abbrev exEntry : WEntry := ⟨List.replicate 100 97, 0o100644, 16777216, 2097152, 5, -1, 0, 0, false⟩
+abbrev exXs : List (Bytes × Bytes) := [(ascii "user.a=b%", [0, 61, 10, 255]), (ascii "user.k", [])]
+
+set_option maxRecDepth 100000 in
+example : Encodable exEntry none exXs :=
+  { nameNul := by decide, tgtNul := by decide, keyNul := by decide, size := by decide, mtime := by decide, uid := by decide,
+    gid := by decide, dev := by decide, nameLen := by decide, tgtLen := by decide, paxLen := by decide, slink := by decide,
+    hlink := by decide }
+
+set_option maxRecDepth 1000000 in
+set_option maxHeartbeats 2000000 in
+example : (writeTarHeader exEntry none exXs 7).map (fun w => match readHeader (w ++ [1, 2, 3]) with
+    | .ok d r => decide (d = decodedOf exEntry none exXs.reverse ∧ r = [1, 2, 3])
+    | _ => false) = some true := by decide
+
+/-- a socket is refused, nothing is written -/
+example : writeTarHeader ⟨ascii "s", 0o140755, 0, 0, 0, 0, 0, 0, false⟩ none [(ascii "user.x", [1])] 0 = none := by decide
+
+/-! #### fix-point: a concrete `FromImage` tree (directory, file with content and two xattrs, symlink, device, hard link),
+and both conversions evaluated on it -/
+
+abbrev exImg : ImgData :=
+  { content := fun p => if p = [ascii "d", ascii "f"] then [104, 105, 0] else [],
+    xattr := fun p => if p = [ascii "d", ascii "f"] then [(ascii "user.a=b", [1, 0]), (ascii "user.c", [])] else [],
+    dev := fun p => if p = [ascii "null"] then (1, 3) else (0, 0) }
+abbrev exTree : List TNode :=
+  [ ⟨[ascii "d"], 0o040755, 0, 0, 1700000000, false, false, none⟩,
+    ⟨[ascii "d", ascii "f"], 0o100644, 1000, 1000, 4294967295, false, false, none⟩,
+    ⟨[ascii "d", ascii "l"], 0o120777, 0, 0, 0, false, false, some (ascii "../x y")⟩,
+    ⟨[ascii "null"], 0o020666, 0, 0, 5, false, false, none⟩,
+    ⟨[ascii "h"], 0o120777, 1000, 1000, 4294967295, false, true, some (ascii "d/f")⟩ ]
+
+set_option maxRecDepth 100000 in
+example : FromImage exImg exTree where
+  nodes := by
+    intro n hn
+    simp only [exTree, List.mem_cons, List.not_mem_nil, or_false] at hn
+    rcases hn with rfl | rfl | rfl | rfl | rfl
+    all_goals exact
+      { pathNe := by decide, comps := by decide, kind := by decide, explicit := by decide, uid := by decide, gid := by decide,
+        mtime := by decide, lnkMode := by decide, hardMode := by decide,
+        lnkTarget := by first | (intro h; exact absurd h (by decide)) | (intro _; exact ⟨_, rfl, by decide, by decide⟩),
+        hardTarget := by first | (intro h; exact absurd h (by decide)) | (intro _; exact ⟨_, rfl, by decide⟩),
+        noTarget := by decide, dev := by decide, nameLen := by decide, contentLen := by decide, keyNul := by decide,
+        paxLen := by decide }
+  distinct := by
+    intro i j hi hj h
+    have hnd : (exTree.map (·.path)).Nodup := by decide
+    have := (List.getElem_inj (xs := exTree.map (·.path)) (i := i) (j := j) (h₀ := by simpa using hi) (h₁ := by simpa using hj) hnd).1
+      (by rw [List.getElem_map, List.getElem_map]; exact h)
+    exact this
+  parents := by
+    intro i hi k h0 hk
+    have hi' : i < 5 := hi
+    rcases i with _ | _ | _ | _ | _ | i
+    · simp [exTree] at hk; omega
+    · have : k = 1 := by simp [exTree] at hk; omega
+      subst this
+      exact ⟨0, by decide, by decide, rfl, rfl⟩
+    · have : k = 1 := by simp [exTree] at hk; omega
+      subst this
+      exact ⟨0, by decide, by decide, rfl, rfl⟩
+    · simp [exTree] at hk; omega
+    · simp [exTree] at hk; omega
+    · omega
+
+set_option maxRecDepth 1000000 in
+set_option maxHeartbeats 4000000 in
+example : tar2sqfsTree {} (sqfs2tar exImg exTree) = some (exTree, devsOf exImg exTree) := by decide
+
+/-! #### foreign dialects: a POSIX ustar block with a `prefix` (a dialect the own writer never produces), a GNU 'L' record
+header, a PAX `path` record -/
+abbrev posixBlock : Bytes :=
+  updateChecksum (field 100 (ascii "file") ++ writeNumber 0o644 8 ++ writeNumber 1000 8 ++ writeNumber 100 8 ++ writeNumber 5 12 ++
+    writeNumber 1542905892 12 ++ zeros 8 ++ [48] ++ zeros 100 ++ [117, 115, 116, 97, 114, 0] ++ [48, 48] ++ field 32 (ascii "user") ++
+    field 32 (ascii "group") ++ writeNumber 0 8 ++ writeNumber 0 8 ++ field 155 (ascii "some/dir") ++ zeros 12)
+
+set_option maxRecDepth 1000000 in
+example : posixBlock.length = 512 ∧ isZeroBlock posixBlock = false ∧ checkVersion posixBlock = some .posix ∧
+    isChecksumValid posixBlock = true ∧ (slice posixBlock 156 1).headD 0 = 48 := by decide
+
+set_option maxRecDepth 1000000 in
+example : (specDecode posixBlock 0 {} .posix).map (fun d => (d.name, d.mode, d.uid, d.gid, d.recordSize, d.mtime)) =
+    some (some (ascii "some/dir/file"), 0o100644, 1000, 100, 5, 1542905892) := by decide
+
+example : IsHdr (hdrBlock (field 100 ((ascii "././@LongLink").take 99)) 0o644 0 0 (ascii "a/long/name").length 0 76 (zeros 100) 0 0) 76
+    (ascii "a/long/name").length :=
+  ext_isHdr ⟨[], 0, 0, 0, 0, 0, 0, 0, false⟩ (ascii "a/long/name") 76 (ascii "././@LongLink") (by decide)
+
+example : (paxRecord (ascii "path") (ascii "x/y")) = ascii "12 path=x/y\n" := by decide
+
+/-- `implicit_parents`: its hypothesis is satisfiable (two directories are created implicitly) -/
+example : (addGeneric {} [] ⟨ascii "a/b/c", 0o100644, 0, 0, 0, false, none, 0, 0⟩).map (fun t => t.map (·.path)) =
+    some [[ascii "a"], [ascii "a", ascii "b"], [ascii "a", ascii "b", ascii "c"]] := by decide
 
 end Sqfs.C04
